@@ -82,6 +82,14 @@ def observe(circuit, with_stim):
     for op in ops:
         st = ticks(op.start_time)
         sched.append([[[int(ch.id), ch.channel.name] for ch in op.channel_identifiers], st, st + ticks(op.duration)])
+    # every sub-circuit (recursively) as an operation occupying its channels from its start to start + duration, with the
+    # positions of the listed operations it contains
+    pos_of = {id(op): i for i, op in enumerate(ops)}
+    subcircuits = []
+    for comp in circuit.composite_operations:
+        st = ticks(comp.start_time)
+        members = sorted(pos_of[id(o)] for o in comp.decomposed_operations())
+        subcircuits.append([[[int(ch.id), ch.channel.name] for ch in comp.channel_identifiers], st, st + ticks(comp.duration), members])
     struct = circuit.circuit_structure
     lv = list(walk_levels(struct))
     assert len(lv) == len(ops) and all(a is b for (a, _), b in zip(lv, ops)), 'tree walk differs from decomposed_operations()'
@@ -118,7 +126,7 @@ def observe(circuit, with_stim):
         for t, name in enumerate(TAGS):
             r = circuit.get_acquisition_indices(AcquisitionTag(qubit_index=q, tag=name))   # positional: multipledispatch ignores keywords
             by_tag.append([q, t, [int(x) for x in np.asarray(r).tolist()]])
-    out = {'listing': listing, 'sched': sched, 'regs': regs[1:], 'meas': meas, 'by_qubit': by_qubit, 'by_tag': by_tag,
+    out = {'listing': listing, 'sched': sched, 'subcircuits': subcircuits, 'regs': regs[1:], 'meas': meas, 'by_qubit': by_qubit, 'by_tag': by_tag,
            'uids_consistent': uids.consistent}
     if with_stim:
         sc = to_stim(circuit).flattened()
